@@ -2,10 +2,10 @@
 package main
 
 import (
-	"go/token"
 	"encoding/json"
 	"flag"
 	"fmt"
+	"go/token"
 	"os"
 	"path/filepath"
 	"runtime/debug"
@@ -203,9 +203,9 @@ func runProp(pc *PropCheck, repo, verif, tier, evPath string, seed int, noKnown 
 	if len(viol) > 0 {
 		replay := filepath.Join(filepath.Dir(evPath), pc.ID+".violations.json")
 		type rep struct {
-			Property   string        `json:"property"`
-			Replay     string        `json:"replay"`
-			Violations []*Obligation `json:"violations"`
+			Property   string            `json:"property"`
+			Replay     string            `json:"replay"`
+			Violations []*Obligation     `json:"violations"`
 			RuleTexts  map[string]string `json:"rules"`
 		}
 		texts := map[string]string{}
